@@ -238,7 +238,7 @@ def gen_document(odfdo, spec):
 
 RAW_NS = ('xmlns:text="urn:oasis:names:tc:opendocument:xmlns:text:1.0" xmlns:table="urn:oasis:names:tc:opendocument:xmlns:table:1.0" '
           'xmlns:office="urn:oasis:names:tc:opendocument:xmlns:office:1.0" xmlns:xlink="http://www.w3.org/1999/xlink" '
-          'xmlns:draw="urn:oasis:names:tc:opendocument:xmlns:drawing:1.0"')
+          'xmlns:draw="urn:oasis:names:tc:opendocument:xmlns:drawing:1.0" xmlns:svg="urn:oasis:names:tc:opendocument:xmlns:svg-compatible:1.0"')
 
 
 def raw_table(rng, name, tight):
@@ -303,9 +303,32 @@ def raw_document(odfdo, spec, rng):
     else:
         for k in range(rng.randint(2, 3)):
             parts.append(raw_table(rng, "Raw%d" % k, tight=(k == 0 or rng.random() < .5)))
+    # constructs spelled as OTHER producers write them (valid, but not odfdo's own spelling): wrapping must not normalise them
+    if text:
+        parts.append('<text:p text:style-name="Style_20_with space &amp; é">styled <draw:frame draw:name="f 1" svg:width="10mm" svg:height="0.3937in" '
+                     'text:anchor-type="as-char" draw:z-index="0"><draw:text-box><text:p>in a box</text:p></draw:text-box></draw:frame></text:p>')
+        parts.append('<text:p><text:date text:date-value="2024-02-29" text:fixed="true">29/02/24</text:date> <text:s text:c="1"/>'
+                     '<text:bookmark text:name="a&quot;b\'c"/><text:note text:note-class="endnote" text:id="ftn0"><text:note-citation>i</text:note-citation>'
+                     '<text:note-body><text:p>n</text:p></text:note-body></text:note></text:p>')
+    else:
+        parts.append('<table:named-expressions>'
+                     '<table:named-range table:name="relative" table:base-cell-address="Raw0.A1" table:cell-range-address="Raw0.A1:.B2"/>'
+                     '<table:named-range table:name="foreign_base" table:base-cell-address="$Raw0.$C$5" table:cell-range-address="$Raw0.$A$1:.$B$2" table:range-usable-as="print-range filter"/>'
+                     '<table:named-range table:name="quoted" table:base-cell-address="$\'Raw0\'.$A$1" table:cell-range-address="$\'Raw0\'.$A$1:.$C$1"/>'
+                     '<table:named-range table:name="two_sheets" table:base-cell-address="$Raw0.$A$1" table:cell-range-address="$Raw0.$A$1:$Raw1.$B$2"/>'
+                     '</table:named-expressions>')
     frag = etree.fromstring("<r %s>%s</r>" % (RAW_NS, "".join(parts)))
     for child in list(frag):
         node.append(child)
+    try:        # meta values in other valid lexical forms: date without time, duration with only seconds
+        mt = doc.meta._XmlPart__tree if doc.meta._XmlPart__tree is not None else doc.meta._get_tree()
+        for e in mt.iter():
+            if isinstance(e.tag, str) and e.tag.endswith("}creation-date"):
+                e.text = "2024-02-29"
+            if isinstance(e.tag, str) and e.tag.endswith("}editing-duration"):
+                e.text = "PT3723S"
+    except Exception:
+        pass
     return doc
 
 
@@ -584,6 +607,12 @@ def locators(doc, tier, rng):
         ntab += 1
         out.append((("table", i), "table"))
         rows = [r for r in t.iter(TB + "table-row")]
+        rep_rows = [k for k, r in enumerate(rows) if any(int(c.get(TB + "number-columns-repeated") or 1) > 1 and (len(c) or set(c.attrib.keys()) - {TB + "number-columns-repeated"})
+                                                           for c in r)] or \
+                   [k for k, r in enumerate(rows) if any(int(c.get(TB + "number-columns-repeated") or 1) > 1 for c in r)]
+        for ri in rep_rows[:1]:          # a row with a repeated run, as a wrapper of the live node and as table.get_row(y, clone=False)
+            out.append((("row", i, ri), "row"))
+            out.append((("rowlive", i, ri), "row"))
         for ri in sorted(set([0, len(rows) - 1]))[:2]:
             if 0 <= ri < len(rows):
                 out.append((("row", i, ri), "row"))
@@ -630,6 +659,13 @@ def resolve(doc, loc):
     if kind == "part": return doc.get_part(loc[1])
     from odfdo import Element
     root = priv(doc.body)
+    if kind == "rowlive":      # the live row object the table itself hands out (shares the table's maps)
+        t = list(root.iter(TB + "table"))[loc[1]]
+        r = list(t.iter(TB + "table-row"))[loc[2]]
+        y = 0
+        for prev in list(t.iter(TB + "table-row"))[:loc[2]]:
+            y += int(prev.get(TB + "number-rows-repeated") or 1)
+        return Element.from_tag(t).get_row(y, clone=False)
     if kind in ("table", "row", "cell"):
         t = list(root.iter(TB + "table"))[loc[1]]
         if kind == "table":
@@ -658,6 +694,11 @@ STD_ARGS = {
     "xpath_query": "descendant::*", "query": "descendant::*", "xpath_instance": None,
     "family": "paragraph", "path": "content.xml", "tag": "text:p", "qname": "text:p", "attr_name": "text:style-name",
     "context": "<ctx>", "table": 0,
+}
+# optional parameters that select a RANGE or filter: the reader is also called with each candidate (wrong-typed ones raise: harmless)
+OPT_ARGS = {
+    "coord": ["A1:C3", "B:D", (1, 3), (0, 0, 2, 2), "B2", (1, 1)],
+    "start": [1], "end": [3], "area": ["A1:C3"], "cell_type": ["all", "string"], "content": ["a"], "style": ["x"],
 }
 NO_CALL = {"get_between", "get_formatted_text"}      # need two elements / have a hand-written entry with both context modes
 
@@ -707,6 +748,15 @@ def introspected_calls(obj):
             skipped.append(name + "(needs arguments)")
             continue
         variants = [dict(req)] + [dict(req, **{k: v}) for k, v in flags]
+        opt = [p.name for p in sig.parameters.values() if p.default is not inspect.Parameter.empty and p.name in OPT_ARGS
+               and p.kind not in (p.VAR_POSITIONAL, p.VAR_KEYWORD)]
+        for pn in opt:
+            for v in OPT_ARGS[pn]:
+                variants.append(dict(req, **{pn: v}))
+                for k, fv in flags[:2]:
+                    variants.append(dict(req, **{pn: v, k: fv}))
+        if "start" in opt and "end" in opt:
+            variants += [dict(req, start=1, end=3), dict(req, start=0, end=1), dict(req, start=2, end=2)]
         if name == "replace":       # count-only: `new` stays None
             variants = [dict(v) for v in variants]
         for kw in variants:
